@@ -5,16 +5,16 @@ package dbh
 import (
 	"bytes"
 	"context"
-	"reflect"
-	"unsafe"
 	"errors"
 	"fmt"
 	"io"
 	"os"
 	"path/filepath"
+	"reflect"
 	"sort"
 	"strings"
 	"time"
+	"unsafe"
 
 	"github.com/google/uuid"
 
@@ -70,7 +70,6 @@ func Cleanup() {
 		os.RemoveAll(base)
 	}
 }
-
 
 // Spec describes an instance.
 type Spec struct {
